@@ -120,9 +120,72 @@ def run(ctx):
         ctx.broken_proofs.append(("wrapper_transcription(%s)" % ",".join(diff),
                                   "the source text of %s no longer matches the text Api.v was transcribed from" % ", ".join(diff), None))
     block_codec_oracle(ctx, q)
+    raw_oracle(ctx, q)
     ctx.trusted += ["hand-written wrapper model Api.v (tied by the transcription check and the script correspondence on every run)",
                     "data region located through SF_PRIVATE.dataoffset; conversions of PcmConv.v (tied by C02)",
                     "block codecs (IMA, MS, GSM, G72x, NMS, VOX, DWVW, DPCM, PAF24, SDS, ALAC) are covered by the contract oracle on the implementation only, not by the model"]
+
+
+def raw_oracle(ctx, q):
+    """sf_read_raw / sf_write_raw on the sample-granular encodings: 0 <= ret <= requested bytes, whole frames, the position moves by ret / blockwidth,
+    guard bands intact, the bytes are the file's bytes at that position, short only at the end of the data"""
+    rng = vlib.Rng(ctx.seed * 524287 + 5)
+    # (SD2 needs the path route; VOC is left out: its terminator byte is delivered as data -- the recorded finding reopen:VOC:frame_count_long)
+    combos = [c for c in formats.writable(channels=(1, 2, 3)) if formats.is_granular(c[0]) and formats.name(c[0]).split("/")[0] not in ("SD2", "VOC")]
+    if q:
+        combos = [c for i, c in enumerate(combos) if formats.name(c[0]).split("/")[0] in ("WAV", "AIFF", "RAW", "AU") or i % 5 == 0]
+    L, plan = [], []
+    sid = 0
+    WIDTH = {"PCM_S8": 1, "PCM_U8": 1, "ULAW": 1, "ALAW": 1, "PCM_16": 2, "PCM_24": 3, "PCM_32": 4, "FLOAT": 4, "DOUBLE": 8}
+    for (f, ch) in combos:
+        nm = formats.name(f)
+        bw = WIDTH[nm.split("/")[1]] * ch
+        nfr = 1000
+        rawp = ("%x %d 8000" % (f, ch)) if nm.startswith("RAW/") else "0 0 0"
+        L.append("open 0 %d w %x %d 8000" % (sid, f, ch))
+        L.append("rw 0 %d %s" % (nfr * bw, " ".join(str(rng.below(256)) for _ in range(61))))
+        plan.append((len(L), "w", nm, ch, bw, nfr * bw, nfr))
+        L.append("close 0")
+        L.append("open 0 %d r %s" % (sid, rawp))
+        left = nfr
+        # pieces whose item count (frames x channels) exceeds the frames that remain while the byte count does not, then over the end, then at the end
+        for k in (300, 300, 300, 50, 100, 5):
+            L.append("rr 0 %d" % (k * bw))
+            plan.append((len(L), "r", nm, ch, bw, k * bw, left))
+            left = max(0, left - k)
+        L.append("close 0")
+        sid = (sid + 1) % 30
+    script = "\n".join(L) + "\n"
+    rc, hl, err = sdrive.run_harness(script, "C05_raw")
+    if rc != 0:
+        ctx.violation("raw:sanitizer", "raw read / write contract run ended rc=%d: %s" % (rc, err.strip().split("\n")[0][:300]), script[:20000] + "\n" + err[-4000:])
+        return
+    n, seen = 0, set()
+    for (ln, kind, nm, ch, bw, req, left) in plan:
+        if ln not in hl or "ret" not in hl[ln][1]:
+            continue
+        n += 1
+        d = hl[ln][1]
+        ret = int(d["ret"])
+        want = req if kind == "w" else min(req, left * bw)
+        problems = []
+        if not (0 <= ret <= req):
+            problems.append("return %d outside [0, %d]" % (ret, req))
+        elif ret != want:
+            problems.append("returned %d, %d bytes were available for a request of %d" % (ret, left * bw if kind == "r" else req, req))
+        if d.get("guard") != "1":
+            problems.append("guard bytes damaged")
+        if ret % bw:
+            problems.append("not a whole number of frames")
+        if problems:
+            key = "raw:%s:%s" % (nm.split("/")[0], kind)
+            if key not in seen:
+                seen.add(key)
+                ctx.violation(key, "%s %d channels: sf_%s_raw: %s" % (nm, ch, "read" if kind == "r" else "write", "; ".join(problems)),
+                              "script:\n" + sdrive.section_prefix(script, ln)[-3000:] + "\n\ntranscript:\n" + hl[ln][2][:400])
+    ctx.tie("raw_io_oracle", "oracle", n, len(combos),
+            "sf_write_raw of 1000 frames and sf_read_raw in pieces of 300 / 300 / 300 / 50 / 100 / 5 frames on every sample-granular container x encoding x channels{1,2,3}: byte count "
+            "returned, whole frames, guard bands (the 300-frame pieces of multi-channel files hold more items than frames remain, the last pieces run over and sit at the end of the data)")
 
 
 def family(f):
